@@ -3,9 +3,10 @@ CONSTANTS
   TableUniverse = {238, 126, 49, 13, 66, 120}
   WithBuiltin = TRUE
   Bytes = {238, 126, 49, 13, 66, 141, 120}
-  MaxLen = 8
-  MaxSeg = 3
+  MaxLen = 10
+  MaxSeg = 5
   Caps = {1, 2, 3, 4, 5}
-  MaxRaw = 4
+  MaxRaw = 8
+  Sim = TRUE
 INVARIANTS Export RoundTrip UnknownCodeRejected
 CHECK_DEADLOCK FALSE
